@@ -234,8 +234,9 @@ class Ctx(object):
 
     def clock(self):
         # virtual replacement of timeit.default_timer for rs.ops.progress
+        # strictly increasing and independent of the magnitude of the virtual time (float resolution)
         self.ticks += 1
-        return float(self.now) + self.ticks * 1e-3
+        return self.ticks * 1e-3
 
     def trace_digest(self):
         h = hashlib.sha256()
